@@ -257,9 +257,14 @@ class Xray(object):
             # Load table when necessary; note there is no table for
             # neutrons (n), and lowercase nitrogen=> n.nff, so it must
             # be checked for explicitly.
+            # The table belongs to the chemical element: ions of D and T
+            # carry the symbol of the isotope.
+            element = self.element
+            while hasattr(element, 'element'):
+                element = element.element
             filename = os.path.join(self._nff_path,
-                                    self.element.symbol.lower()+".nff")
-            if self.element.symbol != 'n' and os.path.exists(filename):
+                                    element.symbol.lower()+".nff")
+            if element.symbol != 'n' and os.path.exists(filename):
                 xsf = numpy.loadtxt(filename, skiprows=1).T
                 xsf[1, xsf[1] == -9999.] = numpy.nan
                 xsf[0] *= 0.001  # Use keV in table rather than eV
